@@ -13,7 +13,7 @@ from .. import sp
 ID = "C04"
 META = {
     "technique": "runtime monitoring: metamorphic monitor on Splitter.split (prefix/suffix invariance of neighbouring well-formed documents around arbitrary text)",
-    "level_text": "For well-formed D1 (ending in a complete block) and D2 (starting with '@type{' at a line start) with disjoint keys, every token sequence X up to the bound plus truncations/corruptions/garbage is placed between them; the first |parse(D1)| and last |parse(D2)| blocks of the combined parse must equal the separate parses (kind, type, key, fields, content, raw).",
+    "level_text": "For well-formed D1 (ending in a complete block) and D2 (starting with '@type{' at a line start) with disjoint keys, every token sequence X up to the bound plus truncations/corruptions/garbage is placed between them; the first |parse(D1)| and last |parse(D2)| blocks of the combined parse must equal the separate parses (kind, type, key, fields, content, raw). X is also one of twelve malformed blocks that carry the type and key of each keyed block of D2 (duplicate field keys, junk, missing separators, truncation): X must consist of failed blocks only and D1, D2 must come back exactly as on their own.",
     "level_note": "start lines are not compared here (C03 decides them); D1/D2 come from the grammar generator and are re-validated by the recogniser",
 }
 RULE = ("case = (D1 index, X, D2 index); X ranges over every token sequence <= L over the resync alphabet, prefixes and mark-deletions of "
